@@ -243,7 +243,8 @@ def hasArgChecks (l : List ArgSpec) : Bool :=
     | .refined lo hi => lo.isSome || hi.isSome
     | .plain => false)
 
-/-- What the failing-argument branch returns (after setting DISABLED): status-returning methods
+/-- What the failing-argument branch returns (after setting DISABLED, which pure methods — `const
+self` — do not do): status-returning methods
 `#bad argument`, everything else the zero value of the result type (`writeOutParamZeroValue`; for
 methods without a result that is `wuffs_base__make_empty_struct()`). This is the code after the repair
 fixes/C11-cgen-argcheck-return-type.patch; before it, only coroutines returned `#bad argument` and
@@ -274,7 +275,9 @@ def callMethodChecked (m : Method) (o : Obj) (selfNull : Bool) (args : List ArgV
     Obj × Ret :=
   if selfNull then (o, nullSelfRet m)
   else if magicBad m o then (o, badMagicRet m o)
-  else if argsBad m.args args then ({ o with magic := DISABLED }, argFailRet m)
+  else if argsBad m.args args then
+    -- "A pure method's self is a pointer to const": no write (fixes/C11-cgen-argcheck-return-type.patch)
+    (if m.effect == .pure then o else { o with magic := DISABLED }, argFailRet m)
   else if m.effect == .coroutine then
     if o.active ≠ 0 ∧ o.active ≠ m.coroID then
       ({ o with magic := DISABLED }, .st (.err .interleavedCoroutineCalls))
@@ -357,7 +360,8 @@ def shapeOfMethod (m : Method) (names : List String) (dvs : List DerivedVar)
   let checks := argCheckText (names.zip m.args)
   let argc := if checks.isEmpty then "args:none"
     else "args:" ++ "||".intercalate checks ++
-      (if m.returnsStatus then "=>disable,badarg" else "=>disable,zero")
+      (if m.effect == .pure then "=>nodisable," else "=>disable,") ++
+      (if m.returnsStatus then "badarg" else "zero")
   let inter := if m.effect == .coroutine
     then s!"interleave:{m.coroID}=>disable,interleaved;active=0" else "interleave:none"
   let sv := if m.hasStatusVar then "statusvar:yes" else "statusvar:no"
